@@ -185,7 +185,7 @@ CHECKS = {
         'float32 storage tolerance; S-bend length taken from femto.',
    design='5/C13'),
  'C15': dict(
-   technique='Coq proof (induction over rows and runs; strokes of the modelled trajectory = spec) + source translator (image_to_path translated, with the translated split_mask, and proved to record the model's raster for every matrix: coq/tie/EquivRi.v) + exhaustive small images and random large ones, stroke-level monitor',
+   technique='Coq proof (induction over rows and runs; strokes of the modelled trajectory = spec) + source translator (image_to_path translated, with the translated split_mask, and proved to record the raster of the model for every matrix: coq/tie/EquivRi.v) + exhaustive small images and random large ones, stroke-level monitor',
    text='Props/C15.v: for every boolean matrix, size and scale the open-shutter strokes of the modelled raster trajectory are, in '
         'image order, one stroke per maximal run of black pixels spanning first..last pixel x at the row y; runs contain only '
         'black pixels (C11 run theorems). Tie to /repo: image_to_path is run on every image with w*h <= 8 (quick) / 12 (thorough) '
